@@ -166,9 +166,37 @@ Theorem C18_rejection_names_field :
         parsed_ok cls name msg /\ parsed_ok cls name (with_class cls msg).
 Proof. exact rejection_names_field. Qed.
 
-(* The unconditional statement ("every value") is FALSE of a chain that orders, hashes or converts the
-   value before checking its class: the shapes of F22a (sign mix-ins), F22b/c (Boolean, Enum over a
-   class) and F24 (Float), on hand-written programs of the same shape as the generated ones. *)
+(* For EVERY scalar field class (Number, Integer, Float, each under every sign mix-in, String, Boolean,
+   Enum over values and over a class) and the type-and-uniqueness helper: ALL field objects fitting the
+   schema and ALL values whatsoever - no domain restriction.  (Before the "fix:" commits for C18-F22a/b/c
+   and C18-F24 the sign mix-ins, Boolean, Enum over a class and the Float family were provable on
+   restricted domains only.) *)
+Theorem C18_rejection_is_templated_all_values :
+  forall k, In k kinds_all_values -> forall g, entry_of (k_entry k) = Some g ->
+  forall re self vals, List.length vals = g_nparams g -> attrs_ok (k_schema k) self = true ->
+    match run re self vals (g_prog g) with
+    | Bare _ => False
+    | Named tid _ => exists t, In t templates /\ t_id t = tid /\ tmpl_ok (t_segs t) = true
+    | Pass _ => True
+    end.
+Proof. exact rejection_is_templated_all_values. Qed.
+
+(* every scalar field class is among them: nothing is left to a restricted domain but the size helper
+   that collection fields call after their own type check *)
+Theorem C18_scalar_kinds_unrestricted :
+  forallb (fun l => existsb (fun k => pystr_eqb (k_label k) (s2p l)) kinds_all_values)
+    ["Number"; "Positive"; "Negative"; "NonPositive"; "NonNegative";
+     "Integer"; "PositiveInt"; "NegativeInt"; "NonPositiveInt"; "NonNegativeInt";
+     "Float"; "PositiveFloat"; "NegativeFloat"; "NonPositiveFloat"; "NonNegativeFloat";
+     "String"; "Boolean"; "Enum[values]"; "Enum[cls]"]%string = true /\
+  map k_label kinds_restricted = [s2p "validate_size"].
+Proof. vm_compute. split; reflexivity. Qed.
+
+(* The analysis is not satisfied by a chain that orders, hashes or converts the value before checking
+   its class - the shapes the sign mix-ins (F22a), Boolean / Enum over a class (F22b/c) and Float (F24)
+   had before their repair, on hand-written programs of those shapes: each is rejected on "every value"
+   and really ends in a nameless exception on a witness.  Should a chain return to such a shape,
+   C18_kinds_ok above fails. *)
 Definition sign_first : gprog :=
   PIf (CCmp OLe (GVar 0) (GConst (PNum (NInt 0%Z)))) (PRaise 0%N ValueError)
       (PIf (CNot (CIsInst (GVar 0) [K_int; K_float; K_Decimal])) (PRaise 1%N TypeError) (PDone 0)).
@@ -180,7 +208,7 @@ Definition convert_first : gprog :=
 Definition no_attrs (_ : pystr) : pyval := PNone.
 Definition all_values : aenv := {| a_vars := [None]; a_attrs := [] |}.
 
-Theorem C18_unconditional_refuted :
+Theorem C18_unguarded_shapes_rejected :
   (gsafe all_values sign_first = false /\
    run (fun _ => false) no_attrs [PStr (s2p "7")] sign_first = Bare TypeError) /\
   (gsafe all_values hash_first = false /\
@@ -189,7 +217,7 @@ Theorem C18_unconditional_refuted :
    run (fun _ => false) no_attrs [PNum (NInt (2 ^ 1024)%Z)] convert_first = Bare OverflowError).
 Proof. vm_compute. repeat split. Qed.
 
-(* the same three shapes pass on the restricted domains of Errors/GuardSchema.v *)
+(* the same three shapes pass on restricted domains (numbers / hashable values / no int beyond the float range) *)
 Theorem C18_restricted_domains_suffice :
   gsafe {| a_vars := [numbers]; a_attrs := [] |} sign_first = true /\
   gsafe {| a_vars := [hashables]; a_attrs := [] |} hash_first = true /\
@@ -213,7 +241,9 @@ Print Assumptions C18_guard_sites.
 Print Assumptions C18_kinds_ok.
 Print Assumptions C18_rejection_is_templated.
 Print Assumptions C18_rejection_names_field.
-Print Assumptions C18_unconditional_refuted.
+Print Assumptions C18_rejection_is_templated_all_values.
+Print Assumptions C18_scalar_kinds_unrestricted.
+Print Assumptions C18_unguarded_shapes_rejected.
 Print Assumptions C18_restricted_domains_suffice.
 
 (* Non-vacuity: a covered template exists, renders, and the hypotheses are satisfiable;
@@ -265,6 +295,31 @@ Example C18_nonvacuous_chain :
   | None => false
   end = true.
 Proof. vm_compute. reflexivity. Qed.
+
+(* The repaired chains on the values that used to end in a nameless exception: a sign mix-in given a
+   str / a list, the Float family given an int beyond the float range, Boolean given a list - each now
+   ends in a raise statement of typedpy (and accepts what it accepted). *)
+Definition chain_out (label : string) (v : pyval) : option outcome :=
+  match kind_by_label (s2p label) with
+  | Some k => match entry_of (k_entry k) with
+              | Some g => Some (run (fun _ => false) (fun _ => PNone) [v] (g_prog g))
+              | None => None
+              end
+  | None => None
+  end.
+
+Example C18_nonvacuous_repaired_chains :
+  match chain_out "Positive" (PStr (s2p "7")), chain_out "NonNegative" (PList [PNum (NInt 1%Z)]),
+        chain_out "Positive" (PNum (NInt 0%Z)), chain_out "Positive" (PNum (NInt 3%Z)),
+        chain_out "Float" (PNum (NInt (2 ^ 1024)%Z)), chain_out "NegativeFloat" (PNum (NInt (- 2 ^ 1024)%Z)),
+        chain_out "Float" (PNum (NInt 3%Z)),
+        chain_out "Boolean" (PList [PNum (NInt 1%Z)]), chain_out "Boolean" (PStr (s2p "True")) with
+  | Some (Named _ TypeError), Some (Named _ TypeError), Some (Named _ ValueError), Some (Pass _),
+    Some (Named _ ValueError), Some (Named _ ValueError), Some (Pass _),
+    Some (Named _ TypeError), Some (Pass (PBool true)) => True
+  | _, _, _, _, _, _, _, _, _ => False
+  end.
+Proof. vm_compute. exact I. Qed.
 
 (* ---- the tie to the source of the message parsers, re-checked by the kernel on every run ------------
    Gen/ErrorPatterns.v is re-generated from typedpy/errors.py (harness/genmods/regex_src.py): the TEXT of
